@@ -460,6 +460,28 @@ fn run(ctx: &mut Ctx) {
             }
         }
     });
+    // ---- events without a single waveform sample need no map and no calibration: they must build for *every* run
+    ctx.cases("no-samples", 24, |ctx, i, rng| {
+        let run = [0u32, 1, 2940, 2941, 4417, 5000, 6999, 7000, 7025, 9276, 9277, 11084, 20000, u32::MAX - 1, u32::MAX, 123456789][(i % 16) as usize];
+        get(run, &mut cache);
+        let (_, inv) = cache.get(&run).unwrap();
+        let ts = rng.next() as u32;
+        let mut banks: Banks = vec![event::trg_bank(ts)];
+        inject(ctx, run, "none (TRG bank only)", banks.clone(), false);
+        for k in 0..3 {
+            banks.push(suppressed_bank(inv, (i as usize * 11 + k * 50) % 256));
+        }
+        banks.push(("B09A".into(), rng.bytes(9)));
+        banks.push(("TRBA".into(), rng.bytes(3)));
+        banks.push(("MCVX".into(), vec![]));
+        rng.shuffle(&mut banks);
+        inject(ctx, run, "none (TRG + suppressed wire packets + foreign banks)", banks.clone(), false);
+        match guard(|| build(run, &banks).map(|e| e.timestamp())) {
+            Ok(Ok(t)) if t == ts => ctx.count("sample-less events built with the TRG timestamp"),
+            Ok(Ok(t)) => ctx.violation("event timestamp is not the TRG packet's timestamp", format!("{} vs {}", t, ts), json!({"run": run})),
+            _ => {}
+        }
+    });
     // ---- history independence: the same banks under run A, then under run B on the other side of the pad-map
     // re-arrangement (and back): every build is still compared slot by slot with the oracle of *its* run
     ctx.cases("run-history", ctx.tier.pick(32, 400), |ctx, i, rng| {
